@@ -1,3 +1,75 @@
 import BB.Driver.Util
-/-! Placeholder driver for C06 (replaced when the model is built). -/
-def main : IO Unit := BB.Driver.loop (fun (s : Unit) _ => (s, "unimplemented")) ()
+import BB.Model.Index
+/-!
+Line-protocol driver of the C06 index model.
+
+    init <maxGet> <maxPut>          reset
+    slot <key> <attempt> <slot>     declare the real slot of (key, attempt)
+    push | pop                      block list grows / releases its oldest block
+    put <key> <relBlock> <off> <size>   -> outcome label
+    get <key>                       -> none | <relBlock> <off> <size>
+    dump <slots>                    -> live records by slot
+-/
+open BB.Driver BB.Index BB.Gen
+
+structure S where
+  maxGet : Nat := 1
+  maxPut : Nat := 1
+  slots : List ((Nat × Nat) × Nat) := []
+  thr : Nat := 0      -- blocks released so far
+  blocks : Nat := 0   -- blocks currently in the list
+  tab : Tab := Tab.empty
+
+def S.cfg (s : S) : Cfg :=
+  { slot := fun k a => match s.slots.lookup (k, a) with
+      | some v => v
+      | none => 1000000000 + a   -- never reached: `declared` is checked first
+    maxGet := s.maxGet, maxPut := s.maxPut }
+
+def S.declared (s : S) (k : Nat) : Bool :=
+  (List.range s.maxGet).all fun a => (s.slots.lookup (k, a)).isSome
+
+def showLoc (s : S) (l : Loc) : String :=
+  s!"{l.blockIndex - s.thr} {l.offsetBytes} {l.sizeBytes}"
+
+def step (s : S) (line : String) : S × String :=
+  match words line with
+  | ["init", g, p] =>
+    match nat? g, nat? p with
+    | some g, some p => ({ maxGet := g, maxPut := p }, "ok")
+    | _, _ => (s, "bad-op")
+  | ["slot", k, a, v] =>
+    match nat? k, nat? a, nat? v with
+    | some k, some a, some v => ({ s with slots := ((k, a), v) :: s.slots }, "ok")
+    | _, _, _ => (s, "bad-op")
+  | ["push"] => ({ s with blocks := s.blocks + 1 }, "ok")
+  | ["pop"] =>
+    if s.blocks = 0 then (s, "bad-op") else ({ s with blocks := s.blocks - 1, thr := s.thr + 1 }, "ok")
+  | ["put", k, b, o, z] =>
+    match nat? k, nat? b, nat? o, nat? z with
+    | some k, some b, some o, some z =>
+      if !s.declared k || b ≥ s.blocks then (s, "bad-op") else
+      let l : Loc := ⟨(s.thr + b : Nat), o, z⟩
+      let (t', out) := put s.cfg s.thr s.tab k l
+      ({ s with tab := t' }, out.label)
+    | _, _, _, _ => (s, "bad-op")
+  | ["get", k] =>
+    match nat? k with
+    | some k =>
+      if !s.declared k then (s, "bad-op") else
+      match get s.cfg s.thr s.tab k with
+      | some l => (s, showLoc s l)
+      | none => (s, "none")
+    | none => (s, "bad-op")
+  | ["dump", n] =>
+    match nat? n with
+    | some n =>
+      let parts := (List.range n).filterMap fun i =>
+        match live s.thr (s.tab i) with
+        | some r => some s!"{i}:{r.key}.{r.att}.{showLoc s r.loc}"
+        | none => none
+      (s, if parts.isEmpty then "empty" else " ".intercalate parts)
+    | none => (s, "bad-op")
+  | _ => (s, "bad-op")
+
+def main : IO Unit := loop step {}
